@@ -162,7 +162,7 @@ def program_case(draw, allow_slashes):
     if draw(st.booleans()):
         for _ in range(draw(st.integers(0, 2))):
             lines.append(draw(st.sampled_from(["", "// header", "   ", "\t// x"])))
-        lines.append(f"#pragma version {version}")
+        lines.append(f"#pragma version {version}" + draw(st.sampled_from(["", "", " // teal", "  ", "\t//v"])))
         expect.append([len(lines), "pragma", version])
     n = draw(st.integers(1, 12))
     used_labels = set()
